@@ -98,6 +98,8 @@ pub struct Profile {
     pub prefill: usize,
     /// allow > changelog-window time jumps and purges in multi-replica histories (C09 only)
     pub long_gaps_when_replicated: bool,
+    /// domain level of the servers (dynamic schema entries only take effect below level 15)
+    pub level: u32,
 }
 
 fn pick_obj(rng: &mut Rng, v: &[Obj]) -> Obj {
@@ -292,6 +294,7 @@ pub fn run_histories_ext(run: &mut Run, args: &Args, prop_salt: u64, histories: 
                 rt.block_on(async {
                     let cfg = WorldCfg {
                         replicas: nrep,
+                        level: prof.level,
                         file_backed: if prof.file_backed { Some(if rng.bool() { Some(64) } else { Some(2048) }) } else { None },
                     };
                     let mut w = World::new(&cfg, &mut rng).await;
